@@ -390,7 +390,7 @@ int main(int argc, char** argv) {
         materialise(world);
     }
     Supervisor sup;
-    sup.timeoutSec = 60;
+    sup.timeoutSec = 240;   // per batch of 32 lines; generous: the machine may be heavily shared
     sup.initChild = [] { XMLPlatformUtils::Initialize(); installRecorders(); };
     sup.handle = mode == "r" ? handleRes : handleExp;
     sup.onFail = [mode](const std::string& line, const std::string& what) {
